@@ -477,10 +477,16 @@ impl TryFrom<Option<&SubtypeElements>> for PerVisibleRangeConstraints {
             Some(SubtypeElements::ContainedSubtype {
                 subtype,
                 extensible: _,
-            }) => per_visible_range_constraints(
-                matches!(subtype, ASN1Type::Integer(_)),
-                subtype.constraints(),
-            ),
+            }) => {
+                let is_integer = matches!(subtype, ASN1Type::Integer(_));
+                let contained = per_visible_range_constraints(is_integer, subtype.constraints())?;
+                // only a SIZE constraint of a contained non-INTEGER type is a range constraint
+                Ok(if is_integer || contained.is_size_constraint {
+                    contained
+                } else {
+                    Self::default()
+                })
+            }
             x => {
                 eprintln!("{x:?}");
                 unreachable!()
